@@ -26,6 +26,7 @@ mod fam_create;
 mod fam_createlarge;
 mod gen;
 mod fam_fold;
+mod fam_large;
 mod fam_marginalize;
 mod fam_npy;
 mod fam_project;
@@ -41,9 +42,17 @@ mod symbolic;
 
 pub use common::*;
 
+thread_local! {
+    static LAST_PANIC_AT: std::cell::RefCell<String> = std::cell::RefCell::new(String::new());
+}
+
 fn main() {
     // A panic of the code under test is data: keep stderr quiet, the families use catch_unwind.
-    std::panic::set_hook(Box::new(|_| {}));
+    // (the location of the last panic is kept per thread, for the report of a family that dies outside catch_unwind)
+    std::panic::set_hook(Box::new(|info| {
+        let loc = info.location().map(|l| format!("{}:{}", l.file(), l.line())).unwrap_or_default();
+        LAST_PANIC_AT.with(|c| *c.borrow_mut() = loc);
+    }));
 
     let args: Vec<String> = std::env::args().collect();
     if args.len() < 2 {
@@ -76,6 +85,7 @@ fn family(name: &str) -> Option<Runner> {
         "create" => fam_create::run,
         "createlarge" => fam_createlarge::run,
         "fold" => fam_fold::run,
+        "large" => fam_large::run,
         "marginalize" => fam_marginalize::run,
         "npy" => fam_npy::run,
         "project" => fam_project::run,
@@ -122,6 +132,7 @@ fn replay(args: &[String]) -> i32 {
     let mut handles = Vec::new();
     for _ in 0..threads {
         let (cases, next, agg, ctx) = (cases.clone(), next.clone(), agg.clone(), ctx.clone());
+        let args_family = args[0].clone();
         handles.push(std::thread::spawn(move || loop {
             let i = {
                 let mut g = next.lock().unwrap();
@@ -132,7 +143,17 @@ fn replay(args: &[String]) -> i32 {
             if i >= cases.len() {
                 break;
             }
-            let out = run(&cases[i], &ctx);
+            // A family that panics while digesting what the implementation returned (an unwrap on output it did not expect)
+            // is reported as a failure of that case, with message and location - not as a dead worker thread.
+            let out = match guarded(|| run(&cases[i], &ctx)) {
+                Ok(o) => o,
+                Err(msg) => {
+                    let mut o = Outcome::default();
+                    let at = LAST_PANIC_AT.with(|c| c.borrow().clone());
+                    o.fail(format!("{}/replay-could-not-digest-the-implementation-output", args_family), json!({"panic": msg, "at": at}));
+                    o
+                }
+            };
             let mut a = agg.lock().unwrap();
             a.absorb(i, &cases[i], out);
         }));
@@ -219,7 +240,8 @@ fn record_cmd(args: &[String]) -> i32 {
     let ctx = Ctx::from_env();
     let trace = &args[1];
     let _ = fs::remove_file(trace);
-    let fixtures = "/repo/cli/tests/create";
+    let fixtures_dir = format!("{}/cli/tests/create", std::env::var("VERIF_REPO").unwrap_or_else(|_| "/repo".into()));
+    let fixtures = fixtures_dir.as_str();
     let mut runs: Vec<(Vec<String>, Option<Vec<u8>>)> = Vec::new();
     let f = |name: &str| format!("{fixtures}/{name}");
     for (file, opts) in [
